@@ -759,7 +759,7 @@ func (s *sess) capCase(cc capCase) {
 		sent := s.snapshot()
 		grace(gc, sent, judged)
 		got, _ := received(gc)
-		s.report("config-cap-"+cc.Name, judge("config-cap-"+cc.Name, sent, got, judged, nil), sent, got)
+		s.report("config-cap", judge("config-cap", sent, got, judged, nil), sent, got)
 		r.Count("cap:"+cc.Name+":all_delivered_no_disconnect", 1)
 		r.Count("cap:messages_delivered", len(got))
 	}
